@@ -29,6 +29,7 @@ OtherObj(o) == IF o = "a" THEN "b" ELSE "a"
 Judge(ev) ==
     IF ev.op = "reset" THEN "ok"
     ELSE IF ev.op = "owner_end" THEN (IF ev.live = 0 THEN "ok" ELSE "life-balance")
+    ELSE IF ev.op = "trap" THEN "mem-trap"      \* a sanitizer / signal stopped a call the model considers valid (C02)
     ELSE IF "outcome" \in DOMAIN ev /\ ~Pre(ev.op, ev.o, ev.x, ev.pre, ev.cap) THEN
         (IF ev.outcome # "handler" THEN "contract-missed"
          ELSE IF ev.hline <= 0 THEN "contract-nolocation"
@@ -39,11 +40,12 @@ Judge(ev) ==
     ELSE IF "outcome" \in DOMAIN ev /\ ev.outcome # "returned" THEN "contract-spurious"
     ELSE IF ~Post(ev.op, ev.o, ev.x, ev.pre, ev.cap, ev.post, ev.ret) THEN "post"
     ELSE IF ~ObsOK(ev.obs, ev.post, ev.cap) THEN "obs"
+    ELSE IF "allocs" \in DOMAIN ev /\ ev.allocs # 0 THEN "mem-alloc"     \* C02: never calls a dynamic allocator
     ELSE IF "life" \in DOMAIN ev THEN LifeVerdict(ev)
     ELSE "ok"
 
 Expected(ev) ==
-    IF ev.op \notin {"reset", "owner_end"} /\ "post" \in DOMAIN ev /\ Pre(ev.op, ev.o, ev.x, ev.pre, ev.cap)
+    IF ev.op \notin {"reset", "owner_end", "trap"} /\ "post" \in DOMAIN ev /\ Pre(ev.op, ev.o, ev.x, ev.pre, ev.cap)
     THEN ToJson(Eff(ev.op, ev.o, ev.x, ev.pre, ev.cap)) ELSE "-"
 
 Init == l = 1 /\ nbad = 0
